@@ -107,6 +107,7 @@ class ZorgFileCompiler(ZorgFileListener):
         if (
             self._s.in_note
             and self._s.ids_in_note == 1
+            and self._s.words_in_note == 1
             and self._s.note_date is None
         ):
             self._s.note_date = get_datetime().date()
@@ -169,6 +170,11 @@ class ZorgFileCompiler(ZorgFileListener):
     def enterId(self, ctx: ZorgFileParser.IdContext) -> None:  # noqa: D102
         if self._s.in_note:
             self._s.ids_in_note += 1
+            # The Nth ID only counts as an identity word (modify date, ZID) if
+            # it also is the Nth word of the note.
+            is_identity_word = self._s.ids_in_note == self._s.words_in_note
+            if not is_identity_word:
+                return
             if self._s.ids_in_note == 1 and zdt.is_short_date_spec(
                 short_date := ctx.getText()
             ):
@@ -241,6 +247,14 @@ class ZorgFileCompiler(ZorgFileListener):
     ) -> None:  # noqa: D102
         key, value = ctx.id_().getText(), ctx.simple_prop_value().getText()
         self._add_prop(key, value)
+
+    def enterSpace_atom(
+        self, ctx: ZorgFileParser.Space_atomContext
+    ) -> None:  # noqa: D102
+        # Count the (non-empty) words of a note's body so that only the words
+        # written right after the note's prefix can set its identity.
+        if self._s.in_note and ctx.getText().strip():
+            self._s.words_in_note += 1
 
     def enterTodo(self, ctx: ZorgFileParser.TodoContext) -> None:  # noqa: D102
         self._s.in_note = True
@@ -402,6 +416,7 @@ class ZorgFileCompiler(ZorgFileListener):
     def _reset_note_context(self) -> None:
         self._s.zid = None
         self._s.ids_in_note = 0
+        self._s.words_in_note = 0
         self._s.note_tags = _get_default_tags_map()
         self._s.note_props = {}
         self._s.note_date = None
@@ -549,6 +564,7 @@ class _ZorgFileCompilerState:
     zid: Optional[str] = None
 
     ids_in_note: int = 0
+    words_in_note: int = 0
 
     block: Optional[Block] = None
     h1: Optional[H1] = None
